@@ -27,12 +27,14 @@ func feasiblePaths(fn *ssa.Function, limit int) ([]*DPath, error) {
 		seen := map[string]bool{}
 		ok := true
 		for _, pc := range d.Conds {
-			k := pc.Cond.String()
-			if prev, dup := seen[k]; dup && prev != pc.Truth {
+			// canonical comparison, so that x == nil taken true contradicts x != nil taken true
+			k, flip := canonAtom(pc.Cond.String())
+			tr := pc.Truth != flip
+			if prev, dup := seen[k]; dup && prev != tr {
 				ok = false
 				break
 			}
-			seen[k] = pc.Truth
+			seen[k] = tr
 		}
 		if ok {
 			out = append(out, d)
@@ -408,9 +410,9 @@ func ruleGDeficit(c *Ctx) {
 	// each piece of the partition returns the right value: 0 where D = OUT+FEE-IN <= 0 is implied,
 	// D where D >= 0 is implied (either strictness of the test is the same function)
 	accept := setOf(
-		"-FEE +IN -OUT > 0 => 0", "-FEE +IN -OUT >= 0 => 0",
-		"FEE -IN +OUT >= 0 => FEE -IN +OUT", "FEE -IN +OUT > 0 => FEE -IN +OUT")
-	want := setOf("-FEE +IN -OUT > 0 => 0", "FEE -IN +OUT >= 0 => FEE -IN +OUT")
+		"-FEE +IN -OUT -1 >= 0 => 0", "-FEE +IN -OUT >= 0 => 0",
+		"FEE -IN +OUT >= 0 => FEE -IN +OUT", "FEE -IN +OUT -1 >= 0 => FEE -IN +OUT")
+	want := setOf("-FEE +IN -OUT -1 >= 0 => 0", "FEE -IN +OUT >= 0 => FEE -IN +OUT")
 	same := len(got) == 2
 	for k := range got {
 		if !accept[k] {
